@@ -331,6 +331,8 @@ def gen_lattice_tangents(rng):
             'ntris': ntris}
     if stale:
         add_stale(rng, case, tris)
+    if case['mode'] == 'api' and uvden == 1 and rng.random() < 0.6:
+        case['uv_dtype'] = rng.choice(['int32', 'int64'])     # whole-number UVs kept in an integer array
     return finish_case(rng, case)
 
 
@@ -427,7 +429,15 @@ def gen_float_case(rng, kind):
             case['fnormals'] = ns
             case['ntris'] = [[rng.randrange(len(ns)) for _ in range(3)] for _ in tris]
         nuv = rng.randint(3, 8)
-        uvs = [[f32(rng.uniform(0, 1)) for _ in range(2)] for _ in range(nuv)]
+        whole = rng.random() < 0.3
+        if whole:
+            # a repeating texture: whole-number UVs, in API mode possibly stored in an integer array
+            nuv = rng.randint(4, 9)
+            uvs = [[float(rng.randint(0, 4)), float(rng.randint(0, 4))] for _ in range(nuv)]
+            if case['mode'] == 'api' and rng.random() < 0.7:
+                case['uv_dtype'] = rng.choice(['int32', 'int64'])
+        else:
+            uvs = [[f32(rng.uniform(0, 1)) for _ in range(2)] for _ in range(nuv)]
         uvtris = []
         for _ in tris:
             for _try in range(200):
@@ -718,7 +728,7 @@ def run(ctx):
         kinds[k] = kinds.get(k, 0) + 1
         sq = c.get('seq') or ('+'.join(c['tan_seq']) if c.get('tan_seq') else None)
         seqs[sq] = seqs.get(sq, 0) + 1
-        for flag in ('soup', 'dtype64', 'mat64'):
+        for flag in ('soup', 'dtype64', 'mat64', 'uv_dtype'):
             if c.get(flag):
                 seqs['flag ' + flag] = seqs.get('flag ' + flag, 0) + 1
         if c.get('fstale'):
